@@ -39,6 +39,10 @@ def confirm(v):
             t = '{{ %s(value=bumped_branch, length=%d) }}' % (fn, ex.get('length', 0))
         r = d.call(op='template', template=native.cps(t), vars={'bumped_branch': native.cps(val)}, **{'as': 'string'})
         return 'panic' in r, '%s with value=%r -> %s' % (t, val, r.get('panic', 'no panic'))
+    if site == 'get_custom_value':
+        key = ''.join(chr(c) for c in v['value'])
+        r = d.call(op='custom_value', key=native.cps(key))
+        return 'panic' in r, 'get_custom_value(%r) -> %s' % (key, r.get('panic', r.get('value')))
     if site == 'Zerv::from(SemVer)':
         pre = [({'u': 1} if k == 'N' else {'s': native.cps(k)}) for k in v['shape']]
         r = d.call(op='semver_convert', v=dict(major=1, minor=0, patch=0, pre=pre, build=None))
@@ -86,7 +90,7 @@ def main():
     ck.bounds = dict(derive_short_hash='commit hashes of 0..%d chars over ASCII + non-ASCII representatives' % N,
                      template_functions='prefix/hash/hash_int with values of 0..3(4) chars and any length 0..40; sanitize with max_length 0..6; format_timestamp with EVERY format string of 0..3(4) chars (symbolic) and any second 1970-2199',
                      from_semver='%d pre-release identifier lists of length <= %d over {epoch, post, dev, alpha, rc, x, number}' % (len(shapes), 3 if quick else 4),
-                     bump_overflow='each by-name bump with any u32 amount on start values up to 2^64-1; index bump of a uint literal up to 2^64-1')
+                     custom_values='dotted keys of up to 4 (5) chars over {a,b,c,s,n,.,0,1,2,9,x} into a nested JSON object with an array, an object, a string and null', bump_overflow='each by-name bump with any u32 amount on start values up to 2^64-1; index bump of a uint literal up to 2^64-1')
     ck.outside = ['argument-vector parsing (clap), stdout/stderr separation and the exit status of the process', 'git sub-command fault sequences', 'RON/JSON parsing of stdin (library code)',
                   'panic paths inside the other properties\' executions are reported by those checks']
     ck.assumptions = ['chrono strftime item validity mirrors StrftimeItems::parse_next_item of the locked chrono 0.4.43 (read from the registry source)', 'python std models']
@@ -100,6 +104,8 @@ def main():
     cands += ck.absorb('Zerv::from(SemVer) never panics on parser-producible records', ex, expect_tags=['returned'])
     ex = engine.explore('c13', 'path_bump_overflow', list(c05.NUMLEVELS), jobs=ck.jobs, deadline=dl(300))
     cands += ck.absorb('bump additions never overflow', ex, expect_tags=['returned'])
+    ex = engine.explore('c13', 'path_custom_value', list(range(0, 5 if quick else 6)), jobs=ck.jobs, deadline=dl(300))
+    cands += ck.absorb('get_custom_value never panics on nested JSON', ex, expect_tags=['returned'])
     ex = engine.explore('c13', 'path_uint_literal_overflow', [0], jobs=ck.jobs, deadline=dl(120))
     cands += ck.absorb('uint literal bump never overflows', ex)
     seen = set()
